@@ -285,6 +285,27 @@ Section OneD.
     rewrite (psum_ext (tval gd gc) (ghat false gd gc)) by (intros j Hj; apply tval_ghat; auto).
     field. auto.
   Qed.
+
+  (* the column written for a periodic variable ends where it starts *)
+  Lemma ti_periodic_last_eq_first w gd gc : gd <> [] -> Forall (fun c => 0 <= c)%Z gc ->
+    let out := ti_integral1 Rops sc true w gd gc in
+    nth (length gd) out 0 = nth 0 out 0.
+  Proof.
+    intros Hne Hc. cbv zeta. destruct (ti_integral1_spec true w gd gc) as [_ [m [H1 _]]]. cbv zeta in H1.
+    rewrite (H1 (length gd)) by lia. rewrite (H1 0%nat) by lia.
+    rewrite tsum_periodic_closes by auto. unfold tsum. cbn [psum]. ring.
+  Qed.
+
+  (* the column is shifted so that its minimum is zero *)
+  Lemma ti_minimum_is_zero per w gd gc :
+    let out := ti_integral1 Rops sc per w gd gc in
+    (forall i, (i <= length gd)%nat -> 0 <= nth i out 0) /\ (exists k, (k <= length gd)%nat /\ nth k out 0 = 0).
+  Proof.
+    cbv zeta. destruct (ti_integral1_spec per w gd gc) as [_ [m [H1 [H2 [k [Hk E]]]]]]. cbv zeta in H1.
+    split.
+    - intros i Hi. rewrite H1 by auto. specialize (H2 i Hi). lra.
+    - exists k. split; [auto|]. rewrite H1 by auto. lra.
+  Qed.
 End OneD.
 
 (* ------------------------------------------------------------------ the empty state is consistent (reals) *)
